@@ -659,7 +659,8 @@ namespace
             {
               const std::string k = e["k"].GetString();
               const long at = e["at"].GetInt64();
-              const double cell = c[e["col"].GetUint()];
+              // the expected value: a row cell ("col") or a variable bound by "rowlet" ("var")
+              const double cell = e.HasMember("var") ? env().at(e["var"].GetString()) : c[e["col"].GetUint()];
               if (std::isnan(cell)) continue;          // null cell: nothing asserted for this row
               ++stats.checks; ++stats.by_check[k]; ++stats.values;
               double want = cell;
